@@ -1,5 +1,6 @@
 import Oracle.Common
 import MageModel.Gen.Dispatch
+import MageModel.Gen.List
 open Lean MageModel.Parse MageModel.Gen
 namespace Oracle.FE
 
@@ -49,7 +50,7 @@ def file (j : Json) : R File := do
   pure { name := ← fldStr j "name", imports := ← listOf importSpec (← fld j "imports"),
          funcs := ← listOf funcDecl (← fld j "funcs"),
          types := ← listOf (fun t => do pure (⟨← fldStr t "name", ← texpr (← fld t "rhs")⟩ : TypeDecl)) (← fld j "types"),
-         defaultVar := dflt, aliases := aliases }
+         defaultVar := dflt, aliases := aliases, pkgDoc := (fldStr j "pkgDoc").toOption.getD "" }
 
 def pkg (j : Json) : R Pkg := do pure ⟨← listOf file (← fld j "files")⟩
 
@@ -57,6 +58,15 @@ structure Proj where
   main : Pkg
   world : List (String × Imported)
   fields : List (String × List String)
+  docText : List (String × String) := []
+  syn : List (String × String) := []
+
+def strMap (j : Json) (k : String) : R (List (String × String)) :=
+  match fldOpt j k with
+  | none => pure []
+  | some v => do
+    let o ← v.getObj?
+    o.toList.mapM fun (a, b) => do pure (a, ← b.getStr?)
 
 def proj (j : Json) : R Proj := do
   let pj ← fld j "project"
@@ -65,13 +75,16 @@ def proj (j : Json) : R Proj := do
     pure (path, (⟨← fldStr v "name", ← pkg (← fld v "pkg")⟩ : Imported))
   let fj ← (← fld j "fields").getObj?
   let fields ← fj.toList.mapM fun (c, v) => do pure (c, ← strList v)
-  pure ⟨← pkg (← fld pj "main"), world, fields⟩
+  pure ⟨← pkg (← fld pj "main"), world, fields, ← strMap j "docText", ← strMap j "syn"⟩
 
 def cfgOf (p : Proj) : MageModel.Parse.Cfg :=
-  { fields := fun c => (p.fields.lookup c).getD [] }
+  { fields := fun c => (p.fields.lookup c).getD [],
+    docText := fun d => (p.docText.lookup d).getD "",
+    docSynopsis := fun t => (p.syn.lookup t).getD "" }
 
 def fnJ (f : Function) : Json :=
   obj [("t", jstr f.targetName), ("id", jstr f.id), ("pkg", jstr f.package), ("err", jbool f.isError), ("ctx", jbool f.isContext),
+       ("syn", jstr f.synopsis), ("comment", jstr f.comment),
        ("args", Json.arr (f.args.map fun a => Json.arr #[jstr a.name, jstr a.type]).toArray)]
 
 def errJ : BuildErr → Json
@@ -87,6 +100,7 @@ def infoJ (i : PkgInfo) : Json :=
        ("default", match i.defaultFunc with | some d => jstr d.targetName | none => Json.null),
        ("aliases", Json.arr (i.aliases.map fun (k, f) => Json.arr #[jstr k, jstr f.targetName]).toArray),
        ("listing", Json.arr ((listing i).map jstr).toArray),
+       ("description", jstr i.description),
        ("deterministic", jbool true)]
 
 def info (j : Json) : R Json := do
@@ -135,8 +149,22 @@ def runOp (j : Json) : R Json := do
                   (c.args.zip (blanks c.callee)).map fun (a, b) => if b then jstr "_" else argJ a).toArray).toArray),
                ("status", Json.num (JsonNumber.fromInt r.status)), ("stop", stopJ r.stop), ("listed", jbool listed)])
 
+/-- fe.text: what `-l` and `-h <word>` print -/
+def textOp (j : Json) : R Json := do
+  let p ← proj j
+  let bin ← fldStr j "bin"
+  let words ← strList (← fld j "helpWords")
+  match primary (cfgOf p) (fun path => p.world.lookup path) p.main with
+  | .error e => pure (obj [("build", errJ e)])
+  | .ok i =>
+    pure (obj [("list", jstr (listText i)),
+               ("help", Json.arr (words.map fun w =>
+                  let r := help bin i [w]
+                  Json.arr #[jstr r.1, Json.num (JsonNumber.fromInt r.2)]).toArray)])
+
 def handle (op : String) (j : Json) : R Json :=
   match op with
+  | "fe.text" => textOp j
   | "fe.info" => info j
   | "fe.run" => runOp j
   | _ => throw s!"unknown op {op}"
